@@ -331,10 +331,18 @@ func monC11(c *drv.Ctx) {
 			var dec func([]byte) (int, error, map[string]string)
 			if cs.Idx == 6 {
 				codec = &base.Base{LogID: "l", Extra: extra}
-				dec = func(b []byte) (int, error, map[string]string) { q := base.NewBase(); n, e := q.FastRead(b); return n, e, q.Extra }
+				dec = func(b []byte) (int, error, map[string]string) {
+					q := base.NewBase()
+					n, e := q.FastRead(b)
+					return n, e, q.Extra
+				}
 			} else {
 				codec = &base.BaseResp{StatusMessage: "m", StatusCode: 3, Extra: extra}
-				dec = func(b []byte) (int, error, map[string]string) { q := base.NewBaseResp(); n, e := q.FastRead(b); return n, e, q.Extra }
+				dec = func(b []byte) (int, error, map[string]string) {
+					q := base.NewBaseResp()
+					n, e := q.FastRead(b)
+					return n, e, q.Extra
+				}
 			}
 			bl := codec.BLength()
 			wire := make([]byte, bl)
